@@ -9,7 +9,7 @@ import time
 from . import driver, tlc
 
 TRACE_INV = ["M_Driver", "M_C01", "M_C02a", "M_C02b", "M_C02c", "M_C03", "M_C06",
-             "M_PadC02", "M_PadC04", "M_PadC06", "Conf", "End"]
+             "M_PadC02", "M_PadC04", "M_PadC06", "M_Step", "M_Final", "Conf", "End"]
 MON2PROP = {"C01": "C01", "C02a": "C02", "C02b": "C02", "C02c": "C02", "PadC02": "C02",
             "C03": "C03", "PadC04": "C04", "C06": "C06", "PadC06": "C06"}
 
@@ -86,7 +86,7 @@ def validate_traces(ad, episodes, tag, invariants=TRACE_INV, shards=16, template
 
 def model_check(ad, fam_file, res, tag):
     wd, root = tlc.prepare("solo_" + tag, template="Solo", env_module=ad.module)
-    tlc.write_cfg(wd, root, invariants=["FamilyOK", "C01", "C02a", "C02c", "C03", "PadStays", "Emit"])
+    tlc.write_cfg(wd, root, invariants=list(ad.solo_invariants))
     r = tlc.run(wd, root, env={"FAMILY_FILE": fam_file}, coverage=True)
     res.stats["model_states"] += r.distinct
     res.stats["model_transitions"] += r.generated
@@ -98,6 +98,8 @@ def model_check(ad, fam_file, res, tag):
     behaviours = {}
     for t in r.tuples("T"):
         behaviours.setdefault(t[1], set()).add(tuple(t[2]))
+    if not ad.has_truth:
+        return behaviours, []
     wd, root = tlc.prepare("truth_" + tag, template="Truth", env_module=ad.module)
     tlc.write_cfg(wd, root, invariants=["C05", "Emit"])
     r2 = tlc.run(wd, root, env={"FAMILY_FILE": fam_file}, coverage=True)
@@ -107,7 +109,7 @@ def model_check(ad, fam_file, res, tag):
     if r2.violated:
         res.drift.append({"kind": "model-invariant", "which": r2.violated,
                           "note": "Truth x model product violates C05 on the MODEL"})
-    sols = [(t[1], list(t[2]), t[3]) for t in r2.tuples("S")]
+    sols = sorted((t[1], list(t[2]), t[3]) for t in r2.tuples("S"))
     return behaviours, sols
 
 
@@ -139,6 +141,62 @@ def classify(ad, fam_file, cands, tag):
     return [out[i] for i in range(n)]
 
 
+def batch_stage(ad, eps, tier, seed, res, tag):
+    """C04: sampled real episodes re-run solo (batch of one) and as rows of mixed batches"""
+    import random
+
+    rnd = random.Random(seed)
+    done = [e for e in eps if e["end"] == "done"]
+    if not done:
+        return
+    m = 40 if tier == "quick" else 400
+    recs = []
+    for key, group in driver.group_by(done, lambda e: ad.group_key(e["inst"])).items():
+        share = max(4, (m * len(group)) // len(done))
+        sample = rnd.sample(group, min(share, len(group)))
+        # always include the shortest and the longest episodes (they induce padding)
+        sample += [min(group, key=lambda e: len(e["a"])), max(group, key=lambda e: len(e["a"]))]
+        rows_of = {id(e): [] for e in sample}
+        batches = []
+        for e in sample:
+            batches.append([e, e])                                   # next to a copy of itself
+            batches.append([rnd.choice(group), e])                   # second position
+            batches.append([e] + [rnd.choice(group) for _ in range(2)])
+            batches.append([rnd.choice(group) for _ in range(rnd.randint(3, 6))] + [e])
+        for b in batches:
+            out = driver.run_rows(ad, [(e["inst"], e["a"]) for e in b],
+                                  extra_pad=1 if ad.pad_steps > 0 else 0)
+            for e, o in zip(b, out):
+                if id(e) in rows_of:
+                    rows_of[id(e)].append(o)
+        for e in sample:
+            solo = driver.run_rows(ad, [(e["inst"], e["a"])], extra_pad=0)[0]
+            recs.append({"inst_id": e["inst"]["id"], "a": e["a"], "solo": solo,
+                         "rows": rows_of[id(e)], "pad_needed": ad.pad_steps > 0, "_inst": e["inst"]})
+    for r in recs:
+        for o in [r["solo"]] + r["rows"]:
+            if isinstance(o["reward"], dict):
+                o["reward"] = int(round(o["reward"]["inexact"] * 1000))
+    wd, root = tlc.prepare("batcheq_" + tag, module="BatchEq")
+    f = os.path.join(wd, "recs.ndjson")
+    tlc.dump_ndjson(f, [{k: v for k, v in r.items() if k != "_inst"} for r in recs])
+    tlc.write_cfg(wd, root, invariants=["M_Mask", "M_Done", "M_PadDone", "M_PadMask", "M_Reward", "End"])
+    r = tlc.run(wd, root, workers=1, env={"TRACE_FILE": f})
+    os.remove(f)
+    ended = {t[1] for t in r.tuples("END")}
+    if len(ended) != len(recs):
+        raise tlc.TLCError("BatchEq: %d of %d records not consumed" % (len(recs) - len(ended), len(recs)))
+    res.stats["batch_records"] = len(recs)
+    res.stats["batch_rows"] = sum(len(x["rows"]) for x in recs)
+    res.stats["trace_states"] += r.distinct
+    res.stats["traces_validated"] += len(recs)
+    for t in r.tuples("FAIL"):
+        rec = recs[t[1] - 1]
+        rows = [(o["size"], o["pos"], o["reward"]) for o in rec["rows"]]
+        res.add("C04", "batch-" + t[2], rec["_inst"], rec["a"],
+                "step %d solo reward %s; rows (size,pos,reward) %s" % (t[3], rec["solo"]["reward"], rows))
+
+
 def run_env(ad, tier, seed=0, stages=("model", "bfs", "replay", "checker")):
     res = EnvResult(ad.name)
     tag = ad.tag if hasattr(ad, "tag") else ad.name
@@ -150,13 +208,15 @@ def run_env(ad, tier, seed=0, stages=("model", "bfs", "replay", "checker")):
     behaviours, sols = {}, []
     if "model" in stages:
         behaviours, sols = model_check(ad, fam_file, res, tag)
+        res.samples += [{"inst_id": i, "feasible_solution_from_TLC": seq, "objective": obj}
+                        for (i, seq, obj) in sols[:: max(1, len(sols) // 2)][:2]]
     # ---- real environment, exhaustive expansion, trace validation ----
     if "bfs" in stages:
         eps = driver.bfs_real(ad, fam, pad_steps=ad.pad_steps)
         res.stats["episodes"] = len(eps)
         res.stats["real_states"] = len({(e["inst"]["id"], tuple(e["a"][:k])) for e in eps
                                         for k in range(len(e["a"]) + 1)})
-        traces = [_norm_pad(e, 0) for e in eps]
+        traces = [_norm_pad(e, ad.eps(e["inst"])) for e in eps]
         fails, drifts, ended, states = validate_traces(ad, traces, tag)
         res.stats["trace_states"] += states
         res.stats["traces_validated"] += len(ended)
@@ -166,7 +226,7 @@ def run_env(ad, tier, seed=0, stages=("model", "bfs", "replay", "checker")):
             e = eps[k]
             if mon == "driver":
                 raise tlc.TLCError("driver produced a non mask-confined episode")
-            res.add(MON2PROP[mon], mon, e["inst"], e["a"],
+            res.add(MON2PROP.get(mon) or ad.monitor_props[mon], mon, e["inst"], e["a"],
                     "step %d end=%s reward=%s checker=%s pad=%s" % (step, e["end"], e["reward"], e["checker"], e["pad"]))
         for e in eps:
             if e["end"] == "inexact" or isinstance(e["reward"], dict):
@@ -189,6 +249,8 @@ def run_env(ad, tier, seed=0, stages=("model", "bfs", "replay", "checker")):
         res.samples += [{"inst": {k: v for k, v in e["inst"].items() if k not in ("pts",)},
                          "actions": e["a"], "reward": e["reward"], "checker": e["checker"]}
                         for e in eps[:: max(1, len(eps) // 3)][:3]]
+    if "batch" in stages and "bfs" in stages:
+        batch_stage(ad, eps, tier, seed, res, tag)
     # ---- spec -> code: replay every feasible solution of the PROBLEM into the real env ----
     if "replay" in stages and sols:
         items = [(by_id[i], seq) for (i, seq, obj) in sols]
@@ -204,7 +266,7 @@ def run_env(ad, tier, seed=0, stages=("model", "bfs", "replay", "checker")):
             if not r["done"]:
                 res.add("C05", "not-finishable", inst, r["played"], "feasible solution played but episode not done")
                 continue
-            if isinstance(r["reward"], dict) or r["reward"] != obj:
+            if isinstance(r["reward"], dict) or abs(r["reward"] - obj) > ad.eps(inst):
                 res.add("C03", "replay-reward", inst, r["played"], "reward %s objective %s" % (r["reward"], obj))
             if r["checker"].startswith("reject"):
                 res.add("C06", "replay-checker", inst, r["played"], r["checker"])
